@@ -119,6 +119,8 @@ def converter_columns(ctx):
     for n in ast.walk(fn.node):
         if isinstance(n, ast.Assign) and len(n.targets) == 1 and isinstance(n.targets[0], ast.Subscript) and isinstance(n.targets[0].slice, ast.Constant):
             cols.add(n.targets[0].slice.value)
+        if isinstance(n, ast.Call) and isinstance(n.func, ast.Attribute) and n.func.attr == 'assign':
+            cols |= {k.arg for k in n.keywords if k.arg}
     _cols['c'], _cols['m'] = cols, ctx.M
     return cols
 
@@ -165,16 +167,7 @@ def converter(ctx):
         ok = bool(si) and si[-1][2][:1] == (('str', 'Date'),) and 'sort_index' in tail and tail.index('sort_index') > tail.index('set_index')
         ctx.require(ok, 'C06.S3', 'the frame is indexed by the timestamp column and sorted by it [%s]' % tag, fn.site(), tail, key='C06.S3|index-sorted')
         # S4: Open rows +14:30, Close rows +21:00
-        offs = {}
-        for w in heap_writes(p):
-            if w.how == 'aug' and w.delta and w.delta[1] == 'Add':
-                tod = time_of_day(w.delta[0])
-                label = None
-                for s in T.subterms(w.loc):
-                    if s[0] == 'cmp' and s[1] == '==' and (s[2][0] == 'str' or s[3][0] == 'str'):
-                        label = s[2][1] if s[2][0] == 'str' else s[3][1]
-                if label is not None:
-                    offs[label] = tod
+        offs = row_offsets(p)
         ctx.require(offs == {'Open': (14, 30), 'Close': (21, 0)}, 'C06.S4', 'open rows are stamped 14:30 and close rows 21:00 [%s]' % tag, fn.site(), offs,
                     key='C06.S4|offsets')
         # S5: Bid and Ask are both the Price
@@ -182,6 +175,11 @@ def converter(ctx):
         for w in heap_writes(p):
             if w.loc[0] == 'sub' and w.loc[2][0] == 'str' and w.loc[2][1] in ('Bid', 'Ask'):
                 cols[w.loc[2][1]] = w.value
+        for o in ops:
+            if o[0] == 'meth' and o[1] == 'assign':
+                for kname in ('Bid', 'Ask'):
+                    if kname in o[3]:
+                        cols[kname] = o[3][kname]
         okc = set(cols) == {'Bid', 'Ask'} and all(x[0] == 'sub' and x[2] == ('str', 'Price') for x in cols.values()) and cols['Bid'] == cols['Ask']
         ctx.require(okc, 'C06.S5', 'Bid and Ask are both the bar price [%s]' % tag, fn.site(), {k: fmt(x)[-40:] for k, x in cols.items()}, key='C06.S5|bid-ask')
         # adjustment: (Adj Close / Close) * Open and Adj Close, when adjusting
@@ -196,7 +194,8 @@ def converter(ctx):
             ctx.require(okadj, 'C06.S5', 'adjusted open = (adjusted close / close) x open, row by row', adj[0].site if adj else fn.site(),
                         fmt(adj[0].value)[-220:] if adj else None, key='C06.S5|adjust')
             ren = [w for w in heap_writes(p) if w.loc[0] == 'attr' and w.loc[2] == 'columns' and w.value == ('list', (('str', 'Open'), ('str', 'Close')))]
-            sel = [o for o in ops if o[0] == 'sub' and o[1][0] == 'tuple' and len(o[1][1]) == 2 and o[1][1][1] == ('list', (('str', 'Adj Open'), ('str', 'Adj Close')))]
+            want = ('list', (('str', 'Adj Open'), ('str', 'Adj Close')))
+            sel = [o for o in ops if o[0] == 'sub' and ((o[1][0] == 'tuple' and len(o[1][1]) == 2 and o[1][1][1] == want) or o[1] == want)]
             ctx.require(len(ren) == 1 and len(sel) == 1, 'C06.S5', 'adjusted open/close replace open/close in that order', fn.site(), key='C06.S5|adjust-cols')
         else:
             ctx.require(not adj, 'C06.S5', 'no adjustment when adjust_prices is off', fn.site(), key='C06.S5|no-adjust')
@@ -282,3 +281,43 @@ def handler(ctx):
             if f2.qn == qn:
                 ok = len(n.args) >= 2 and isinstance(n.args[0], ast.Name) and n.args[0].id == 'dt'
                 ctx.require(ok, 'C06.S6', '%s passes its own dt to the data source' % qn, f2.site(n), key='C06.S6|%s|dt' % qn)
+
+
+def row_offsets(p):
+    """{'Open': (h, m), 'Close': (h, m)}: the time added to the Date of the rows selected by Market == <label> (`+=` or `x = x + ...`)"""
+    from ..lib import delta
+    offs = {}
+    for w in heap_writes(p):
+        if w.how not in ('aug', 'assign'):
+            continue
+        d = delta(w)
+        if d is None:
+            continue
+        tod = time_of_day(d)
+        if tod is None:
+            continue
+        label = None
+        for s in T.subterms(w.loc):
+            if s[0] == 'cmp' and s[1] == '==' and (s[2][0] == 'str' or s[3][0] == 'str'):
+                label = s[2][1] if s[2][0] == 'str' else s[3][1]
+        if label is not None:
+            offs[label] = tod
+    return offs
+
+
+def bid_ask_columns(ctx):
+    """per normal path of the converter: {'Bid': term, 'Ask': term} as built by subscript assignment or .assign(...)"""
+    qn = 'CSVDailyBarDataSource._convert_bar_frame_into_bid_ask_df'
+    out = []
+    for p in normal(summarise(ctx, qn, policy=default_policy)):
+        cols = {}
+        for w in heap_writes(p):
+            if w.loc[0] == 'sub' and w.loc[2][0] == 'str' and w.loc[2][1] in ('Bid', 'Ask'):
+                cols[w.loc[2][1]] = w.value
+        for o in chain_ops(p.value):
+            if o[0] == 'meth' and o[1] == 'assign':
+                for kname in ('Bid', 'Ask'):
+                    if kname in o[3]:
+                        cols[kname] = o[3][kname]
+        out.append(cols)
+    return out
